@@ -17,7 +17,7 @@ THEOREMS = [
     "c14_translated", "c14_poll_interval_documented", "c14_deadline", "c14_timeout_at_deadline", "c14_cancel_latency", "c14_cancelled_only_if_fired",
     "c14_one_cancel_notification", "c14_cancel_before_send_writes_no_request", "c14_progress_exact",
     "c14_consumed_is_before_completion", "c14_progress_token_filter", "c14_callback_failure_irrelevant",
-    "c14_shared_token", "c14_shared_token_starts", "c14_blocked_writer", "c14_stalled_writer", "c14_token_flag", "c14_token_callbacks", "c14_client_call_bounded",
+    "c14_shared_token", "c14_shared_token_starts", "c14_blocked_writer", "c14_stalled_writer", "c14_token_flag", "c14_token_callbacks", "c14_token_history", "c14_client_call_bounded",
     "c14_deadline_slow_callbacks", "c14_slow_callbacks_nothing_invented", "c14_slow_model_refines",
 ]
 RULE = (
